@@ -169,7 +169,9 @@ def big_message_history(rng):
     msg = bytes([t]) + n.to_bytes(3, 'big') + rng.randbytes(n)
     tail = rng.choice((b'', bytes.fromhex('00000000')))
     frag = rng.choice((16384, 16384, 16640, 9973, 16383))
-    parts = [msg[a:a + frag] for a in range(0, len(msg) - 1, frag)]
+    parts = [msg[a:a + frag] for a in range(0, len(msg), frag)]
+    if len(parts) > 1 and len(parts[-1]) == 0:
+        parts.pop()
     parts[-1] += tail
     msgs = ['(Hs (%s %s))' % (name, core.span(4, n))] + (['(Hs HelloRequest)'] if tail else [])
     for j, part in enumerate(parts):
